@@ -258,6 +258,9 @@ def open_save(data, form, tmp, as_presentation):
     return out.getvalue()
 
 
+MAIN = []
+
+
 def out_of_order_twice(ctx):
     """'slide part names that are non-contiguous or out of order ... open intact': such a deck opened, saved BEFORE the slides
     are looked at, then looked at (the parts are renamed on first access) and saved again - both files must re-open with the
@@ -440,6 +443,17 @@ def correspond(ctx):
                 got = type(e).__name__
             if got != want:
                 ctx.fail(f"refusal-class:{name}", f"{name} [{form}]: expected {want}, got {got}", {"input": name, "form": form})
+            if name.startswith("main-type:") or name == "wrong-main-type":
+                # the decision itself against the model (`Opc.isPresentationType`)
+                main_ct = [c for n, c in pkg["overrides"] if n.endswith("presentation.xml")]
+                if main_ct and got in (None, "ValueError"):
+                    MAIN.append(("c16.main " + common.enc(main_ct[0]), "ok" if got is None else "ValueError", {"input": name, "form": form}))
+    for (line, i, case), m in zip(MAIN, ctx.driver.run([x[0] for x in MAIN]) if MAIN else []):
+        ctx.traces += 1
+        ctx.case(key=(line, case["form"]))
+        if i != m:
+            ctx.disagree("main-part-type", case, i, m)
+    del MAIN[:]
     if metas:
         ctx.sample({"case": metas[0], "impl": c01.show("OK " + impl[0])[:600]})
         ctx.sample({"case": metas[-1]})
